@@ -478,6 +478,15 @@ def type_identity_problems(ctx):
                             ("no declarations", [], NONE)):
         b = fresh_builder(ctx, "none")
         b[2]["module"][2]["types_global_values"] = ("list", list(tgv))
+        # as in any real module the declarations are referred to from other sections (a name, a decoration, a member decoration)
+        for t_ in tgv:
+            rid_ = t_[2]["result_id"]
+            if rid_ != NONE:
+                ref_ = ("enum", "Operand::IdRef", [rid_[1]])
+                b[2]["module"][2]["debug_names"][1].append(_ti("Name", [ref_, ("enum", "Operand::LiteralString", [("str", "t%s" % rid_[1])])]))
+                b[2]["module"][2]["annotations"][1].append(_ti("Decorate", [ref_, ("enum", "Operand::Decoration", [("enum", "Decoration::Block", [])])]))
+                b[2]["module"][2]["annotations"][1].append(_ti("MemberDecorate", [ref_, ("enum", "Operand::LiteralBit32", [0]), ("enum", "Operand::Decoration", [("enum", "Decoration::Offset", [])]),
+                                                                                  ("enum", "Operand::LiteralBit32", [0])]))
         before = repr(b)
         h = BH(ctx)
         ev = progx.make(h, "Builder::dedup_insert_type")
